@@ -98,14 +98,36 @@ def targets(v, L):
         s.qpd_4 = "x"
         return s, s
 
+    def sub_in_msg():
+        m, p = seg_in_msg()
+        f = p.pid_3[0]
+        f.cx_4.hd_2 = "1.2.3"
+        f.cx_4.hd_1 = "HOSP"
+        return m, f.cx_4.hd_2[0]
+
     def zseg_in_msg():
         m, p = seg_in_msg()
         z = m.add_segment("ZIN")
         z.zin_1 = "a"
         return m, z
     return [("empty_segment", seg_empty), ("empty_group_in_message", group_empty_in_msg), ("open_ended_segment", qpd),
-            ("z_segment_in_message", zseg_in_msg), ("segment", seg_alone), ("segment_in_message", seg_in_msg), ("field_in_segment", field_in_seg), ("field", field_alone),
+            ("z_segment_in_message", zseg_in_msg), ("subcomponent_in_message", sub_in_msg), ("segment", seg_alone), ("segment_in_message", seg_in_msg), ("field_in_segment", field_in_seg), ("field", field_alone),
             ("component_in_field", comp_in_field), ("group", group), ("message", msg)]
+
+
+def _wrong_dt(v, L):
+    """a datatype object whose class fits none of the leaves it is assigned to below (they are SI / ST / IS)"""
+    from hl7apy.factories import datatype_factory
+    return datatype_factory("DT", "20200101", v, L)
+
+
+def _existing_leaf(t):
+    """an existing, valued leaf holder below the target (writing through a child that does not exist is another probe)"""
+    x = (t.pid_1 if t.classname == "Segment" and t.name == "PID" else t.cx_1 if t.classname == "Field" and t.name == "PID_3"
+         else t.hd_1 if t.classname == "Component" else t)
+    if x is not t and not len(x):
+        raise LookupError("no such leaf in this target")
+    return x[0] if x is not t else x
 
 
 OTHERS = []      # further elements an operation involved (the parent that refused, ...): their listings are observed too
@@ -140,6 +162,8 @@ def operations(v, L, other):
             "Segment": t.name + "|1||||A^B|||M~F~G" if t.name == "PID" else t.name + "|a|b|" + "x" * 70000,
             "Group": "IN1|1\rIN2|1\rIN2|2\rNK1|9", "Message": "MSH|^~\\&|A\rEVN|1\rEVN|2\rEVN|3",
             "Field": "1^2^3^A&B&C&D&E&F&G^MR^^^^^^^^^^^^^^^x", "Component": "N&U&T&X&Y&Z"}.get(t.classname, "x"))),
+        ("value=object that is no text", lambda t: setattr(t, "value", object())),
+        ("value=datatype object of another class", lambda t: setattr(_existing_leaf(t), "value", _wrong_dt(v, L))),
         ("add a far additional field of another version", lambda t: t.add(Field("%s_%d" % (t.name, 40), version=("2.4" if v != "2.4" else "2.5"), validation_level=L))),
         ("add a far additional field of another level", lambda t: t.add(Field("%s_%d" % (t.name, 45), version=v, validation_level=other))),
     ]
